@@ -214,8 +214,10 @@ static const int32 NTS[] = {DFNT_UINT8, DFNT_INT16, DFNT_INT32, DFNT_FLOAT32, DF
 /* ---------------------------------------------------------------- canonical dump ------------------------ */
 /* the dump is a set of records (one per stored object / attribute / dimension); a record may be spread over several
    DL() pieces and ends with a newline; each complete record is reduced to a 32-bit hash */
-static uint32_t dl_hashes[8192];
-static int      dl_n;
+static uint32_t dl_hashes[8192], dl_vhashes[8192];
+static int      dl_n, dl_vn;
+static int      dl_view;   /* the record being built belongs to the interface-level VIEW (datasets, images, annotations, attributes,
+                              user elements / vdatas / vgroups), not to the library's own bookkeeping objects */
 static char     dl_cur[4096];
 static int      dl_len;
 static void dl_add(const char *piece, int n)
@@ -225,10 +227,17 @@ static void dl_add(const char *piece, int n)
             uint32_t h = 2166136261u;
             for (int k = 0; k < dl_len; k++) { h ^= (uint8_t)dl_cur[k]; h *= 16777619u; }
             if (dl_n < 8192) dl_hashes[dl_n++] = h;
+            if (dl_view && dl_vn < 8192) dl_vhashes[dl_vn++] = h;
             dl_len = 0;
         }
         else if (dl_len < (int)sizeof dl_cur) dl_cur[dl_len++] = piece[i];
     }
+}
+static int internal_class(const char *cl)
+{
+    static const char *pfx[] = {"Attr0.0", "DimVal0.", "Var0.0", "Dim0.0", "UDim0.0", "CDF0.0", "RI0.0", "RIG0.0", "RIATTR0.0", "_HDF_", "SDSVar", "CoordVar", NULL};
+    for (int i = 0; pfx[i]; i++) if (!strncmp(cl, pfx[i], strlen(pfx[i]))) return 1;
+    return 0;
 }
 static void dump_file(const char *path, sha_t *S)
 {
@@ -250,7 +259,9 @@ static void dump_file(const char *path, sha_t *S)
                 if (ll >= 0 && ll <= (int32)sizeof buf) n = ll > 0 ? Hread(a, ll, buf) : 0;
                 Hendaccess(a);
             }
+            dl_view = bt >= 1000 && bt != DFTAG_VH && bt != DFTAG_VS && bt != DFTAG_VG;
             DL("H %u %u len=%ld n=%ld h=%08x\n", (unsigned)bt, (unsigned)ref, (long)ll, (long)n, n > 0 ? quick(buf, n) : 0);
+            dl_view = 0;
         }
     }
     /* Vdata / Vgroup level */
@@ -262,12 +273,14 @@ static void dump_file(const char *path, sha_t *S)
             int32 n = 0, il = 0, sz = 0; char flds[1024] = "", nm[256] = "", cl[256] = "";
             VSinquire(v, &n, &il, flds, &sz, nm);
             VSgetclass(v, cl);
+            dl_view = !internal_class(cl);
             DL("VS %ld n=%ld il=%ld sz=%ld name=%s class=%s fields=%s nattr=%ld\n", (long)r, (long)n, (long)il, (long)sz, nm, cl, flds, (long)VSnattrs(v));
             if (n > 0 && sz > 0 && (long)n * sz <= (long)sizeof buf && flds[0] && VSsetfields(v, flds) != FAIL) {
                 int32 got = VSread(v, buf, n, FULL_INTERLACE);
                 DL("VS %ld read=%ld h=%08x\n", (long)r, (long)got, got > 0 ? quick(buf, (long)got * sz) : 0);
             }
             VSdetach(v);
+            dl_view = 0;
         }
         r = -1;
         while ((r = Vgetid(f, r)) != FAIL) {
@@ -275,14 +288,17 @@ static void dump_file(const char *path, sha_t *S)
             if (g == FAIL) { DL("VG %ld attach-fail\n", (long)r); continue; }
             char nm[256] = "", cl[256] = ""; int32 n = 0;
             Vinquire(g, &n, nm); Vgetclass(g, cl);
+            dl_view = !internal_class(cl);
             DL("VG %ld n=%ld name=%s class=%s nattr=%ld:", (long)r, (long)n, nm, cl, (long)Vnattrs(g));
             for (int32 i = 0; i < n && i < 64; i++) { int32 t = 0, rr = 0; Vgettagref(g, i, &t, &rr); DL(" %ld/%ld", (long)t, (long)rr); }
             DL("\n");
+            dl_view = 0;
             Vdetach(g);
         }
         Vend(f);
     }
     /* annotations */
+    dl_view = 1;
     {
         int32 a = ANstart(f);
         if (a != FAIL) {
@@ -330,11 +346,13 @@ static void dump_file(const char *path, sha_t *S)
             GRend(g);
         }
     }
+    dl_view = 0;
     Hclose(f);
+    dl_view = 1;
     /* SD level */
     {
         int32 s = SDstart(path, DFACC_READ);
-        if (s == FAIL) { DL("SD start-fail\n"); return; }
+        if (s == FAIL) { DL("SD start-fail\n"); dl_view = 0; return; }
         int32 nds = 0, nat = 0;
         SDfileinfo(s, &nds, &nat);
         DL("SD %ld %ld\n", (long)nds, (long)nat);
@@ -377,6 +395,7 @@ static void dump_file(const char *path, sha_t *S)
         }
         SDend(s);
     }
+    dl_view = 0;
 #undef DL
 }
 
@@ -400,6 +419,9 @@ static int sds_geom(int32 id, int32 *rank, int32 *dims, int32 *nt, long *ne)
     for (int k = 0; k < *rank; k++) *ne *= (dims[k] > 0 ? dims[k] : 1);
     return 1;
 }
+
+/* " empty=1" when the dataset holds no data yet (diagnostic for known-finding signatures only) */
+static const char *empty_mark(int32 id) { int e = 0; return (SDcheckempty(id, &e) != FAIL && e) ? " empty=1" : ""; }
 
 static int run_op(const char *op)
 {
@@ -529,7 +551,14 @@ static int run_op(const char *op)
         long d = I(1); NEED(SLOT(sds, d, NA)); int32 rank, dims[H4_MAX_VAR_DIMS], nt; long ne;
         NEED(sds_geom(sds[d], &rank, dims, &nt, &ne)); int32 st[H4_MAX_VAR_DIMS];
         ne = 1; for (int k = 0; k < rank; k++) { st[k] = 0; ne *= dims[k]; } NEED(ne > 0 && ne * ntsize(nt) < (long)sizeof big);
-        rc = SDreaddata(sds[d], st, NULL, dims, big) != FAIL; if (rc) sprintf(extra, " h=%08x", quick(big, ne * ntsize(nt)));
+        const char *em = empty_mark(sds[d]); rc = SDreaddata(sds[d], st, NULL, dims, big) != FAIL; if (rc) sprintf(extra, " h=%08x%s", quick(big, ne * ntsize(nt)), em);
+    }
+    OP("sdreadrec") {   /* SDreaddata of a window [start, start+count) along the FIRST dimension (may reach beyond the dataset's own end) */
+        long d = I(1); NEED(SLOT(sds, d, NA)); int32 rank, dims[H4_MAX_VAR_DIMS], nt; long ne;
+        NEED(sds_geom(sds[d], &rank, dims, &nt, &ne) && rank >= 1 && I(3) > 0 && I(2) >= 0); int32 st[H4_MAX_VAR_DIMS], ct[H4_MAX_VAR_DIMS];
+        ne = 1; for (int k = 0; k < rank; k++) { st[k] = 0; ct[k] = dims[k] > 0 ? dims[k] : 1; } st[0] = (int32)I(2); ct[0] = (int32)I(3);
+        for (int k = 0; k < rank; k++) ne *= ct[k]; NEED(ne > 0 && ne * ntsize(nt) < (long)sizeof big);
+        const char *em = empty_mark(sds[d]); rc = SDreaddata(sds[d], st, NULL, ct, big) != FAIL; if (rc) strcpy(extra, em);
     }
     OP("sdsetattr") {   /* sdsetattr kind(0 file,1 sds,2 dim) slot dimidx name nt n seed */
         long k = I(1), n = I(6); int32 id = FAIL; NEED(n > 0 && n < 4096);
@@ -543,7 +572,7 @@ static int run_op(const char *op)
     }
     OP("sdsetdimname") { long d = I(1); NEED(SLOT(sds, d, NA)); int32 di = SDgetdimid(sds[d], (int)I(2)); NEED(di != FAIL); rc = SDsetdimname(di, S_(3)) != FAIL; }
     OP("sdsetdimscale") { long d = I(1); NEED(SLOT(sds, d, NA)); int32 di = SDgetdimid(sds[d], (int)I(2)); NEED(di != FAIL); char nm[256]; int32 sz = 0, t, na; SDdiminfo(di, nm, &sz, &t, &na); if (sz == 0) { int32 rank, dims[H4_MAX_VAR_DIMS], nt; long ne; sds_geom(sds[d], &rank, dims, &nt, &ne); sz = dims[0] > 0 ? dims[0] : 1; } fill(big, sz * 8, I(4)); rc = SDsetdimscale(di, sz, NT(I(3)), big) != FAIL; }
-    OP("sdgetdimscale") { long d = I(1); NEED(SLOT(sds, d, NA)); int32 di = SDgetdimid(sds[d], (int)I(2)); NEED(di != FAIL); rc = SDgetdimscale(di, big) != FAIL; }
+    OP("sdgetdimscale") { long d = I(1); NEED(SLOT(sds, d, NA)); int32 di = SDgetdimid(sds[d], (int)I(2)); NEED(di != FAIL); char nm[256]; int32 sz = 0, t = 0, na = 0; SDdiminfo(di, nm, &sz, &t, &na); rc = SDgetdimscale(di, big) != FAIL; if (t == 0) strcpy(extra, " empty=1"); }
     OP("sdsetdimstrs") { long d = I(1); NEED(SLOT(sds, d, NA)); int32 di = SDgetdimid(sds[d], (int)I(2)); NEED(di != FAIL); rc = SDsetdimstrs(di, "lab", "unit", "fmt") != FAIL; }
     OP("sdsetdimval_comp") { long d = I(1); NEED(SLOT(sds, d, NA)); int32 di = SDgetdimid(sds[d], (int)I(2)); NEED(di != FAIL); rc = SDsetdimval_comp(di, (int)I(3)) != FAIL; }
     OP("sdsetdatastrs") { long d = I(1); NEED(SLOT(sds, d, NA)); rc = SDsetdatastrs(sds[d], "label", "unit", "format", "coords") != FAIL; }
@@ -646,6 +675,10 @@ static int run_op(const char *op)
             Hclose(f);
         }
     }
+    OP("dfr8addimage") {   /* old-style 8-bit raster (DFR8 interface; the file must not be open): comp 0 none, 11 RLE */
+        long w = I(2), h = I(3); NEED(w > 0 && h > 0 && w * h < (long)sizeof big); fill(big, w * h, I(5));
+        rc = DFR8addimage(fname(I(1)), big, (int32)w, (int32)h, (uint16)I(4)) != FAIL;
+    }
     OP("rmfile") { rc = unlink(xname(I(1))) == 0; }
     OP("chmodro") { rc = chmod(S_(1), 0444) == 0; }
     OP("chmodrw") { rc = chmod(S_(1), 0666) == 0; }
@@ -693,11 +726,13 @@ static void run_history(char **lines, long *lnos, long n)
         if (rc == 3) { printf("%ld check", lnos[li]); do_check(); printf("\n"); fflush(stdout); continue; }
         if (rc == 4) {
             sha_t S; sha_init(&S);
-            w_bytes = w_calls = w_creates = 0; dl_n = 0; dl_len = 0;
+            w_bytes = w_calls = w_creates = 0; dl_n = 0; dl_vn = 0; dl_len = 0; dl_view = 0;
             dump_file(fname(I(1)), &S);
             long wb2 = w_bytes, wc2 = w_calls, wcr2 = w_creates;
             printf("%ld dump w=%ld,%ld,%ld n=%d ", lnos[li], wb2, wc2, wcr2, dl_n);
             for (int k = 0; k < dl_n; k++) printf("%s%08x", k ? "," : "", dl_hashes[k]);
+            printf(" view=");
+            for (int k = 0; k < dl_vn; k++) printf("%s%08x", k ? "," : "", dl_vhashes[k]);
             printf("\n"); fflush(stdout); continue;
         }
         printf("%ld %s w=%ld,%ld,%ld%s\n", lnos[li], rc == 1 ? "ok" : rc == 0 ? "fail" : "na", wb, wc, wcr, extra);
